@@ -1068,3 +1068,29 @@ def rule_witnesses(rep, ctx):
                 rep.viol(rid, 'witness:' + k, 'witness %s no longer fails to compile with the expected error code: the type-level guarantee it documents is gone' % k, 'witness/src/lib.rs')
             else:
                 rep.viol(rid, 'witness-twin:' + k, 'the compiling twin %s no longer compiles: the witness next to it may fail for an unrelated reason' % k, 'witness/src/lib.rs')
+
+
+
+# --------------------------------------------------------------------------------------------
+# positive controls on fixtures/mir-rt (a frozen copy of src/ with seeded defects)
+# --------------------------------------------------------------------------------------------
+
+RT_CONTROLS = {
+    'M-C15a': lambda r, c: rule_bump(r, c, 'fixture-rt'),
+    'M-C15b': lambda r, c: rule_is_boundary(r, c, 'fixture-rt'),
+    'M-C14c': lambda r, c: rule_field_correspondence(r, c, 'fixture-rt'),
+    'M-C05a': lambda r, c: rule_unsafe_inventory(r, c, 'fixture-rt'),
+    'M-C13a': lambda r, c: rule_mapping_table(r, c, 'fixture-rt'),
+}
+
+
+def rt_controls(rep, ctx, rids):
+    import core
+    crid = rep.rule('M-controls', 'positive controls: the runtime rules fire on fixtures/mir-rt, a frozen copy of src/ carrying the seeded defects C15-a, C15-b, C14-b, C05-a, C13-a')
+    crate = ctx.mir('fixture-rt')['logos']
+    for rid in rids:
+        probe = core.Report(rep.pid, rep.tier)
+        RT_CONTROLS[rid](probe, crate)
+        real = [v for v in probe.rules.get(rid, dict(violations=[]))['violations'] if not v['key'].startswith('anchor-missing')]
+        rep.inst(crid, rid)
+        rep.control(crid, '%s on fixtures/mir-rt' % rid, bool(real))
